@@ -377,6 +377,12 @@ def run(world, rep, tier, only=None):
                 rep.ob("C01.l", site(g, "BLOCK_CHANGED raises inode_modified#%d" % i), ok,
                        "`%s` (line %d) lies behind or is always followed by `inode_modified = 1`" % (n.text()[:30], n.line))
 
+    # ------------------------------------------------------------------ C01.m what e2fsck repaired in a group descriptor reaches the disk
+    # (shared with C20.c) e2fsck runs with EXT2_FLAG_MASTER_SB_ONLY; the flush at the end must still write every
+    # *primary* descriptor block - with meta_bg each meta group has its own - whatever that flag says.
+    from rules import C20
+    C20.flush2_writer_rules(world, prog, rep, "C01.m")
+
     # ------------------------------------------------------------------ C01.g bitmap checksum verification skipped only for a dirty own bitmap
     p5 = {f.name: f for f in prog.fns_in_file("e2fsck/pass5.c")}
     pass5 = p5.get("e2fsck_pass5")
